@@ -48,6 +48,7 @@ RAISE_KINDS = {
     'dir': ['raise_before', 'raise_mid_dir', 'bad_type'],
     'continues': ['raise_before', 'raise_mid_dir'],
     'empty_dir': ['raise_before', 'bad_type'],
+    'figure': ['raise_before', 'raise_after_log', 'abort_after_log', 'bad_type', 'unserializable'],
 }
 DEFAULT_RAISE = ['raise_before', 'raise_after_log', 'abort_after_log', 'bad_type']
 
@@ -336,6 +337,27 @@ def _enumerate_faults(kind, mode, variant, rng, res: CaseResult, other_tmp=None)
                 if not (tmpd / 'prov.txt').exists():
                     res.violate(f'{what}: the work directory of the resumable task ({key}_tmp) lost what the failed run had written', witness=witness,
                                 facts={'tag': 'continues_tmp'})
+            if kind == 'continues' and fk == 'raise_mid_dir' and forced:
+                # the interrupted forced recomputation left pending work beside the finished result; a chain that merely READS the finished result
+                # leaves that work alone, a later forced request continues it
+                d3 = lab.root / 'raise3'
+                if d3.exists():
+                    shutil.rmtree(d3)
+                shutil.copytree(d2, d3, symlinks=True)
+                r3 = lab.run([{'op': 'build', 'chain': 'c', 'root': root}, {'op': 'value', 'chain': 'c', 'task': slug},
+                              {'op': 'build', 'chain': 'c2', 'root': root}, {'op': 'force', 'chain': 'c2', 'tasks': [slug], 'via': 'task'},
+                              {'op': 'value', 'chain': 'c2', 'task': slug}], data_dir=d3)
+                if session_problem(r3):
+                    res.inconclusive.append(session_problem(r3))
+                else:
+                    res.count('pending_work_beside_a_finished_result_checked')
+                    o3 = r3['steps']
+                    if o3[1]['ok'] and [x for x in o3[1]['runs'] if x['phase'] == 'start']:
+                        res.violate(f'{what}: a later chain ran the task again although the finished result is stored', witness=witness, facts={'tag': 'rerun'})
+                    saw3 = [x.get('saw_in_workdir') for x in o3[4]['runs'] if x.get('phase') == 'workdir' and x['task'] == slug] if o3[4]['ok'] else None
+                    if saw3 is not None and (not saw3 or 'prov.txt' not in saw3[-1]):
+                        res.violate(f'{what}: after a chain had merely loaded the finished result, the next forced request no longer found the pending work of the '
+                                    f'interrupted attempt in its work directory (saw {saw3})', witness=witness, facts={'tag': 'continues_not_resumed'})
             check_after(lab, ref, root, slug, res, witness, what + ' (later chain)', d2,
                         continues_tmp='prov.txt' if (kind == 'continues' and fk == 'raise_mid_dir') else None)
         # ---- (d) the failure comes from an INPUT task (transient), then the same chain is asked again -------------------------------------
